@@ -15,6 +15,7 @@ import (
 	"strings"
 	"sync"
 	"testing"
+	"time"
 )
 
 type apiReplayRecord struct {
@@ -47,7 +48,7 @@ func apiPaths() []string {
 		`$.*.twice()`, `$.a.twice()`, `$.*.max()`, `$.a.*.max()`, `$.a.max()`, `$.*.collect()`, `$.a.collect()`, `$.*.fail()`, `$.*.afail()`, `$[?(@.a.twice() == 2)]`, `$[?(@.max() > 0)]`,
 		`$.items[?(($.strict == false || @.ok == true) && @.n > 1)]`, `$.items[?((@.ok == true || $.strict == false) && @.n > 1)]`, `$.items[?((!@.zz || @.ok == true) && @.n > 1)]`,
 		`$.items[?(@.v == $.want)]`, `$.items[?(@.v > $.want)]`, `$.list[?(@.v == $.ref)]`, `$.list[?($.ref == @.v)]`, `$[?(@ == $[0])]`, `$[?(@.a == $[0].a)]`, `$[?(@.a < 1e300)]`, `$[?(@.a >= 0)]`,
-		`$[-2:]`, `$[-3:]`, `$[-2:].twice()`, `$[1:3]`, `$[?(@ > 1)]`,
+		`$[-2:]`, `$[-3:]`, `$[-2:].slow()`, `$[1:].slow()`, `$[-3:]..a`, `$.*.slow()`, `$..a.slow()`, `$[?(@.a)].slow()`, `$[-2:].twice()`, `$[1:3]`, `$[?(@ > 1)]`,
 		`$['a','b'].twice()`, `$['a','b'].collect()`, `$..a.collect()`, `$.zz`, `$.a.zz`, `$[10]`, `$.*.zz`, `$..zz`, `$[?(@.zz)]`, `$.a[0]`, `$[0].a`,
 	}
 	return base
@@ -61,6 +62,7 @@ func apiConfig(accessor bool) Config {
 		}
 		return nil, fmt.Errorf("not a number")
 	})
+	cfg.SetFilterFunction("slow", func(v interface{}) (interface{}, error) { time.Sleep(300 * time.Microsecond); return v, nil })
 	cfg.SetFilterFunction("fail", func(v interface{}) (interface{}, error) { return nil, fmt.Errorf("always") })
 	cfg.SetAggregateFunction("max", func(p []interface{}) (interface{}, error) {
 		m, found := 0.0, false
@@ -292,7 +294,8 @@ func apiCheckConcurrent(t *testing.T) {
 					if g%2 == 1 {
 						_, _ = Parse(paths[(ji+g)%len(paths)], cfg)
 					}
-					for di := range docs {
+					for dk := range docs {
+						di := (dk*(g+1) + g) % len(docs)
 						o, _ := apiEval(j.f, shared[di])
 						if o != j.want[di] {
 							mu.Lock()
